@@ -367,6 +367,20 @@ func c01(c *an.Ctx) {
 				f.Precedes(r, dec, cb, an.OrderOpt{Success: true, Label: "snappy.Decode(success) ≺ callBack"})
 				f.Guarded(r, cb, "callBack only for type < WriteWalEnd", an.AtomLike(`^engine\.WalRecordType\(.*\)<engine\.WriteWalEnd$`, true))
 				f.Guarded(r, cb, "callBack only for type > WriteWalUnKnownType", an.AtomLike(`^engine\.WriteWalUnKnownType<engine\.WalRecordType\(.*\)$`, true))
+				// a record is declared torn (the rest of the file is dropped) only for the reasons a torn
+				// write produces: a failed/short read, an unknown type byte, a failed decode or row unmarshal.
+				// Anything else — a size limit, a heuristic — drops acknowledged records of a healthy log.
+				torn := f.Find(an.MReturn("(…, io.EOF / error) = record torn", func(g *an.Fn, rs *ast.ReturnStmt) bool {
+					return len(rs.Results) == 2 && !an.IsNilIdent(g.Info, rs.Results[1]) && g.Canon(rs.Results[1]) != "local(innerErr)"
+				}))
+				if torn.Len() > 0 {
+					f.Guarded(r, torn, "a record is declared torn only after a failed read, an unknown type, a failed decode or unmarshal",
+						an.AtomLike(`(^nil==|==nil$)`, false),
+						an.AtomLike(`^engine\.WalRecordHeadSize==`, false),
+						an.AtomLike(`^engine\.WriteWalUnKnownType<engine\.WalRecordType\(.*\)$`, false),
+						an.AtomLike(`^engine\.WalRecordType\(.*\)<engine\.WriteWalEnd$`, false),
+						an.AtomLike(`^engine\.isKnownWalRecordType\(.*\)$`, false))
+				}
 				// line-protocol records: unmarshalRows success before the rows object is attached
 				rowsObjs := obj(r, E+":walRecord.rowsObjs")
 				if rowsObjs != nil {
